@@ -18,6 +18,7 @@ import (
 	metav1 "k8s.io/apimachinery/pkg/apis/meta/v1"
 	"k8s.io/apimachinery/pkg/labels"
 	"k8s.io/apimachinery/pkg/runtime/schema"
+	"k8s.io/client-go/tools/cache"
 	"k8s.io/klog/v2"
 )
 
@@ -139,4 +140,21 @@ func compositeFactory(w *vw.World, cfg *vw.CtlConfig) (vw.Controller, error) {
 		return nil, fmt.Errorf("compositeFactory: kind %q", cfg.Kind)
 	}
 	return newCompositeAdapter(w, cfg)
+}
+
+// ---- vw.EventSink ----
+
+func (a *compositeAdapter) ParentAdd(obj any)         { a.pc.enqueueParentObject(obj) }
+func (a *compositeAdapter) ParentUpdate(old, cur any) { a.pc.updateParentObject(old, cur) }
+func (a *compositeAdapter) ParentDelete(obj any)      { a.pc.enqueueParentObject(obj) }
+func (a *compositeAdapter) ChildAdd(obj any)          { a.pc.onChildAdd(obj) }
+func (a *compositeAdapter) ChildUpdate(old, cur any)  { a.pc.onChildUpdate(old, cur) }
+func (a *compositeAdapter) ChildDelete(obj any)       { a.pc.onChildDelete(obj) }
+func (a *compositeAdapter) RelatedAdd(obj any)        { a.pc.customize.VerifOnRelatedAdd(obj) }
+func (a *compositeAdapter) RelatedUpdate(old, cur any) {
+	a.pc.customize.VerifOnRelatedUpdate(old, cur)
+}
+func (a *compositeAdapter) RelatedDelete(obj any) { a.pc.customize.VerifOnRelatedDelete(obj) }
+func (a *compositeAdapter) ParseKey(key string) (string, string, error) {
+	return cache.SplitMetaNamespaceKey(key)
 }
